@@ -55,7 +55,13 @@ func readChunks(ctx context.Context, ch <-chan *birch.Document, o chan<- *Chunk)
 		if zelem == nil {
 			return errors.New("data is not populated")
 		}
-		_, zBytes := zelem.Value().Binary()
+		_, zBytes, ok := zelem.Value().BinaryOK()
+		if !ok {
+			return errors.New("data is not a binary value")
+		}
+		if len(zBytes) < 4 {
+			return errors.New("data is too short to hold a metrics payload")
+		}
 
 		// the metrics chunk, after the first 4 bytes, is zlib
 		// compressed, so we make a reader for that. data
@@ -136,14 +142,191 @@ func readChunks(ctx context.Context, ch <-chan *birch.Document, o chan<- *Chunk)
 	return nil
 }
 
+// readBufBSON reads one framed BSON document. It returns io.EOF only when
+// the stream ends exactly at a document boundary; a stream that ends inside
+// the length word or inside the document yields io.ErrUnexpectedEOF, and a
+// document whose length field or structure is invalid yields an error
+// rather than a panic.
 func readBufBSON(buf *bufio.Reader) (*birch.Document, error) {
-	doc := &birch.Document{}
+	var sizeBuf [4]byte
 
-	if _, err := doc.ReadFrom(buf); err != nil {
+	n, err := io.ReadFull(buf, sizeBuf[:])
+	if err != nil {
+		if n == 0 && err == io.EOF {
+			return nil, io.EOF
+		}
+		if err == io.EOF {
+			err = io.ErrUnexpectedEOF
+		}
 		return nil, err
 	}
 
-	return doc, nil
+	size := int32(binary.LittleEndian.Uint32(sizeBuf[:]))
+	if size < 5 {
+		return nil, errors.Errorf("invalid bson document length %d", size)
+	}
+
+	// grow with the bytes that are really there instead of trusting the
+	// length field of a possibly corrupt stream
+	body := bytes.NewBuffer(make([]byte, 0, 512))
+	_, _ = body.Write(sizeBuf[:])
+	if _, err = io.CopyN(body, buf, int64(size)-4); err != nil {
+		if err == io.EOF {
+			err = io.ErrUnexpectedEOF
+		}
+		return nil, err
+	}
+
+	data := body.Bytes()
+	if err = validateBSON(data); err != nil {
+		return nil, errors.Wrap(err, "malformed bson document")
+	}
+
+	return birch.ReadDocument(data)
+}
+
+// validateBSON checks that b is exactly one structurally valid BSON
+// document: every length field stays inside its enclosing document, every
+// string and key is terminated, every element type is known, and embedded
+// documents are valid in turn.
+func validateBSON(b []byte) error {
+	if len(b) < 5 {
+		return errors.New("document shorter than five bytes")
+	}
+	if int64(int32(binary.LittleEndian.Uint32(b))) != int64(len(b)) {
+		return errors.New("document length does not match its frame")
+	}
+	if b[len(b)-1] != 0 {
+		return errors.New("document is not terminated")
+	}
+
+	b = b[4 : len(b)-1]
+	for len(b) > 0 {
+		kind := b[0]
+		keyLen := bytes.IndexByte(b[1:], 0)
+		if keyLen < 0 {
+			return errors.New("element key is not terminated")
+		}
+		b = b[keyLen+2:]
+
+		size, err := validateBSONValue(kind, b)
+		if err != nil {
+			return err
+		}
+		b = b[size:]
+	}
+
+	return nil
+}
+
+// validateBSONValue returns the encoded size of a value of the given type
+// at the head of b, or an error if it is malformed or does not fit.
+func validateBSONValue(kind byte, b []byte) (int, error) {
+	fixed := func(n int) (int, error) {
+		if len(b) < n {
+			return 0, errors.New("value runs past the end of its document")
+		}
+		return n, nil
+	}
+	length := func(b []byte) (int, error) {
+		if len(b) < 4 {
+			return 0, errors.New("length field runs past the end of its document")
+		}
+		return int(int32(binary.LittleEndian.Uint32(b))), nil
+	}
+	str := func(b []byte) (int, error) {
+		n, err := length(b)
+		if err != nil {
+			return 0, err
+		}
+		if n < 1 || n > len(b)-4 || b[4+n-1] != 0 {
+			return 0, errors.New("malformed string")
+		}
+		return 4 + n, nil
+	}
+	cstr := func(b []byte) (int, error) {
+		n := bytes.IndexByte(b, 0)
+		if n < 0 {
+			return 0, errors.New("string is not terminated")
+		}
+		return n + 1, nil
+	}
+	embedded := func(b []byte) (int, error) {
+		n, err := length(b)
+		if err != nil {
+			return 0, err
+		}
+		if n < 5 || n > len(b) {
+			return 0, errors.New("embedded document does not fit")
+		}
+		return n, validateBSON(b[:n])
+	}
+
+	switch kind {
+	case 0x01, 0x09, 0x11, 0x12: // double, datetime, timestamp, int64
+		return fixed(8)
+	case 0x02, 0x0D, 0x0E: // string, javascript, symbol
+		return str(b)
+	case 0x03, 0x04: // document, array
+		return embedded(b)
+	case 0x05: // binary
+		n, err := length(b)
+		if err != nil {
+			return 0, err
+		}
+		if n < 0 || n > len(b)-5 {
+			return 0, errors.New("binary value does not fit")
+		}
+		return 5 + n, nil
+	case 0x06, 0x0A, 0xFF, 0x7F: // undefined, null, min key, max key
+		return 0, nil
+	case 0x07: // object id
+		return fixed(12)
+	case 0x08: // boolean
+		if len(b) < 1 || b[0] > 1 {
+			return 0, errors.New("malformed boolean")
+		}
+		return 1, nil
+	case 0x0B: // regular expression
+		p, err := cstr(b)
+		if err != nil {
+			return 0, err
+		}
+		o, err := cstr(b[p:])
+		return p + o, err
+	case 0x0C: // db pointer
+		n, err := str(b)
+		if err != nil {
+			return 0, err
+		}
+		if len(b)-n < 12 {
+			return 0, errors.New("db pointer does not fit")
+		}
+		return n + 12, nil
+	case 0x0F: // code with scope
+		total, err := length(b)
+		if err != nil {
+			return 0, err
+		}
+		code, err := str(b[4:])
+		if err != nil {
+			return 0, err
+		}
+		scope, err := embedded(b[4+code:])
+		if err != nil {
+			return 0, err
+		}
+		if total != 4+code+scope {
+			return 0, errors.New("code with scope length mismatch")
+		}
+		return total, nil
+	case 0x10: // int32
+		return fixed(4)
+	case 0x13: // decimal128
+		return fixed(16)
+	default:
+		return 0, errors.Errorf("unknown element type 0x%02x", kind)
+	}
 }
 
 func readBufMetrics(buf *bufio.Reader) (*birch.Document, []Metric, error) {
